@@ -628,8 +628,8 @@ def run(ctx):
     ctx.cov['trusted_base'] += [
         'checks/C07.py generator (incl. its bookkeeping shadow used only to bias the histories), textual comparison of observations, key derivation',
         'harness/C07.cpp: one public Db call per operation + 16 getter families after each call; library messages silenced through redefine_message/redefine_error',
-        'observation-level spec check_obs/post_bits/frame_bits (coq/C07/Spec.v, extracted) is the search oracle; its agreement with Inv is validated by the runs '
-        '(no alarm on any strict history) and by mutation tests, not by a Coq theorem']
+        'observation-level spec (coq/C07/Spec.v, extracted) is the search oracle: check_obs is proved sound for Inv (C07_obs_sound); '
+        'post_bits / frame_bits are the observation-level renderings of C07_setlocs_post / C07_frame, validated by the runs and by mutation tests only']
     ctx.assumptions = ['names over [A-Za-z0-9._-] only (the model of std::regex treats "." as the only metacharacter)',
                        'GlobalEnvironment domain reference off (default); plain Db (mayChangeSampleNumber() true); DbGrid not modelled',
                        'cell values are small integers or NA: no editor computes on them',
